@@ -8,7 +8,7 @@ set_option linter.unusedSimpArgs false
 namespace RV.Conc
 
 def critI : IPc → Bool
-  | .locked | .stepping | .stepped => true
+  | .postLock | .locked | .stepping | .stepped => true
   | _ => false
 
 def critS : SPc → Bool
@@ -39,6 +39,8 @@ structure Inv (s : State) : Prop where
   noUB  : s.ub = false
   lockUp : s.ilock = true → s.srvUp = true
   waitUp : (s.ipc = .waitNC ∨ s.ipc = .wantLock) → s.srvUp = true
+  flagUp : (s.ipc = .postLock ∨ s.ipc = .postUnlock) → s.srvUp = true
+  noMem  : s.memerr = false
 
 theorem inv_init : Inv init := by
   constructor <;> simp [init, critI, critS, ncHigh, adjPc, boundary]
@@ -46,16 +48,16 @@ theorem inv_init : Inv init := by
 /-- `racy` is a history flag: once set it stays set -/
 theorem step_racy_mono {s s' : State} {e : Ev} (hs : step s e = some s') (h : s'.racy = false) :
     s.racy = false := by
-  obtain ⟨ipc, spc, owner, nc, ⟨steps, adj, phase⟩, snap, served, up, il, rc, ub⟩ := s
+  obtain ⟨ipc, spc, owner, nc, ⟨steps, adj, phase⟩, snap, served, up, il, rc, ub, me⟩ := s
   cases e <;> simp only [step, setPhase] at hs <;> (repeat' split at hs) <;>
     simp only [Option.some.injEq, reduceCtorEq] at hs <;> subst hs <;> simp_all
 
 /-- split of the events into groups (only to keep each case analysis small) -/
 def grp : Ev → Nat
   | .iEnter | .iChkBegin | .iChkSync | .iChkEnd _ => 0
-  | .iSeeSrv _ | .iSpin | .iSeeNC0 | .iLock => 1
-  | .iStepBegin | .iStepEnd | .iUnlock | .iSkipUnlock => 2
-  | .iEpiSync | .iLeave | .xStart | .sReq => 3
+  | .iSeeSrv _ | .iSpin | .iSeeNC0 | .iLock | .iSetFlag => 1
+  | .iStepBegin | .iStepEnd | .iUnlock | .iSkipUnlock | .iClrFlag => 2
+  | .iEpiSync | .iLeave | .xStart | .sReq | .xStop => 3
   | .sSetNC | .sLock | .sSerBegin | .sSerEnd => 4
   | .sClrNC | .sUnlock | .sSent => 5
 
@@ -68,38 +70,38 @@ macro "inv_case" : tactic => `(tactic|
 
 theorem step_inv_g0 {s s' : State} {e : Ev} (hg : grp e = 0) (h : Inv s)
     (hs : step s e = some s') (hr : s'.racy = false) : Inv s' := by
-  obtain ⟨ipc, spc, owner, nc, ⟨steps, adj, phase⟩, snap, served, up, il, rc, ub⟩ := s
-  obtain ⟨h1, h2, h3, h4, h5, h6, h7, h8, h9, h10, h11, h12⟩ := h
+  obtain ⟨ipc, spc, owner, nc, ⟨steps, adj, phase⟩, snap, served, up, il, rc, ub, me⟩ := s
+  obtain ⟨h1, h2, h3, h4, h5, h6, h7, h8, h9, h10, h11, h12, h13, h14⟩ := h
   cases e <;> simp only [grp] at hg <;> (try omega) <;> inv_case
 
 theorem step_inv_g1 {s s' : State} {e : Ev} (hg : grp e = 1) (h : Inv s)
     (hs : step s e = some s') (hr : s'.racy = false) : Inv s' := by
-  obtain ⟨ipc, spc, owner, nc, ⟨steps, adj, phase⟩, snap, served, up, il, rc, ub⟩ := s
-  obtain ⟨h1, h2, h3, h4, h5, h6, h7, h8, h9, h10, h11, h12⟩ := h
+  obtain ⟨ipc, spc, owner, nc, ⟨steps, adj, phase⟩, snap, served, up, il, rc, ub, me⟩ := s
+  obtain ⟨h1, h2, h3, h4, h5, h6, h7, h8, h9, h10, h11, h12, h13, h14⟩ := h
   cases e <;> simp only [grp] at hg <;> (try omega) <;> inv_case
 
 theorem step_inv_g2 {s s' : State} {e : Ev} (hg : grp e = 2) (h : Inv s)
     (hs : step s e = some s') (hr : s'.racy = false) : Inv s' := by
-  obtain ⟨ipc, spc, owner, nc, ⟨steps, adj, phase⟩, snap, served, up, il, rc, ub⟩ := s
-  obtain ⟨h1, h2, h3, h4, h5, h6, h7, h8, h9, h10, h11, h12⟩ := h
+  obtain ⟨ipc, spc, owner, nc, ⟨steps, adj, phase⟩, snap, served, up, il, rc, ub, me⟩ := s
+  obtain ⟨h1, h2, h3, h4, h5, h6, h7, h8, h9, h10, h11, h12, h13, h14⟩ := h
   cases e <;> simp only [grp] at hg <;> (try omega) <;> inv_case
 
 theorem step_inv_g3 {s s' : State} {e : Ev} (hg : grp e = 3) (h : Inv s)
     (hs : step s e = some s') (hr : s'.racy = false) : Inv s' := by
-  obtain ⟨ipc, spc, owner, nc, ⟨steps, adj, phase⟩, snap, served, up, il, rc, ub⟩ := s
-  obtain ⟨h1, h2, h3, h4, h5, h6, h7, h8, h9, h10, h11, h12⟩ := h
+  obtain ⟨ipc, spc, owner, nc, ⟨steps, adj, phase⟩, snap, served, up, il, rc, ub, me⟩ := s
+  obtain ⟨h1, h2, h3, h4, h5, h6, h7, h8, h9, h10, h11, h12, h13, h14⟩ := h
   cases e <;> simp only [grp] at hg <;> (try omega) <;> inv_case <;> (try (cases ipc <;> simp_all))
 
 theorem step_inv_g4 {s s' : State} {e : Ev} (hg : grp e = 4) (h : Inv s)
     (hs : step s e = some s') (hr : s'.racy = false) : Inv s' := by
-  obtain ⟨ipc, spc, owner, nc, ⟨steps, adj, phase⟩, snap, served, up, il, rc, ub⟩ := s
-  obtain ⟨h1, h2, h3, h4, h5, h6, h7, h8, h9, h10, h11, h12⟩ := h
+  obtain ⟨ipc, spc, owner, nc, ⟨steps, adj, phase⟩, snap, served, up, il, rc, ub, me⟩ := s
+  obtain ⟨h1, h2, h3, h4, h5, h6, h7, h8, h9, h10, h11, h12, h13, h14⟩ := h
   cases e <;> simp only [grp] at hg <;> (try omega) <;> inv_case
 
 theorem step_inv_g5 {s s' : State} {e : Ev} (hg : grp e = 5) (h : Inv s)
     (hs : step s e = some s') (hr : s'.racy = false) : Inv s' := by
-  obtain ⟨ipc, spc, owner, nc, ⟨steps, adj, phase⟩, snap, served, up, il, rc, ub⟩ := s
-  obtain ⟨h1, h2, h3, h4, h5, h6, h7, h8, h9, h10, h11, h12⟩ := h
+  obtain ⟨ipc, spc, owner, nc, ⟨steps, adj, phase⟩, snap, served, up, il, rc, ub, me⟩ := s
+  obtain ⟨h1, h2, h3, h4, h5, h6, h7, h8, h9, h10, h11, h12, h13, h14⟩ := h
   cases e <;> simp only [grp] at hg <;> (try omega) <;> inv_case
 
 theorem grp_lt (e : Ev) : grp e < 6 := by cases e <;> simp [grp]
@@ -140,25 +142,25 @@ theorem run_inv {tr : List Ev} : ∀ {s s' : State}, Inv s → run s tr = some s
 theorem exec_inv {tr : List Ev} {s : State} (h : Exec tr s) (hq : s.racy = false) : Inv s :=
   run_inv inv_init h hq
 
-/-- once the server is up, `racy` no longer changes -/
-theorem step_racy_up {s s' : State} {e : Ev} (hs : step s e = some s') (hu : s.srvUp = true) :
-    s'.racy = s.racy ∧ s'.srvUp = true := by
-  obtain ⟨ipc, spc, owner, nc, ⟨steps, adj, phase⟩, snap, served, up, il, rc, ub⟩ := s
+/-- `racy` only changes when the server is started or stopped -/
+theorem step_racy_const {s s' : State} {e : Ev} (hs : step s e = some s') (h1 : e ≠ .xStart) (h2 : e ≠ .xStop) :
+    s'.racy = s.racy := by
+  obtain ⟨ipc, spc, owner, nc, ⟨steps, adj, phase⟩, snap, served, up, il, rc, ub, me⟩ := s
   cases e <;> simp only [step, setPhase] at hs <;> (repeat' split at hs) <;>
     simp only [Option.some.injEq, reduceCtorEq] at hs <;> subst hs <;> simp_all
 
-theorem run_racy_up {tr : List Ev} : ∀ {s s' : State}, run s tr = some s' → s.srvUp = true →
-    s'.racy = s.racy := by
+theorem run_racy_const {tr : List Ev} : ∀ {s s' : State}, run s tr = some s' →
+    (∀ e ∈ tr, e ≠ .xStart) → (∀ e ∈ tr, e ≠ .xStop) → s'.racy = s.racy := by
   induction tr with
-  | nil => intro s s' hr _; simp [run] at hr; subst hr; rfl
+  | nil => intro s s' hr _ _; simp [run] at hr; subst hr; rfl
   | cons e es ih =>
-    intro s s' hr hu
+    intro s s' hr h1 h2
     simp only [run] at hr
     split at hr
     · simp at hr
-    · next s1 h1 =>
-      have := step_racy_up h1 hu
-      rw [ih hr this.2, this.1]
+    · next s1 hs =>
+      rw [ih hr (fun x hx => h1 x (by simp [hx])) (fun x hx => h2 x (by simp [hx])),
+          step_racy_const hs (h1 e (by simp)) (h2 e (by simp))]
 
 theorem run_append {a b : List Ev} : ∀ {s : State},
     run s (a ++ b) = match run s a with | none => none | some s1 => run s1 b := by
@@ -176,7 +178,7 @@ theorem run_append {a b : List Ev} : ∀ {s : State},
 theorem step_proj {s s' : State} {e : Ev} (hs : step s e = some s') :
     (if e.isI && e != .iSpin then soloStep ⟨s.ipc, s.sim⟩ e = some ⟨s'.ipc, s'.sim⟩
      else (s'.ipc = s.ipc ∧ s'.sim = s.sim)) := by
-  obtain ⟨ipc, spc, owner, nc, ⟨steps, adj, phase⟩, snap, served, up, il, rc, ub⟩ := s
+  obtain ⟨ipc, spc, owner, nc, ⟨steps, adj, phase⟩, snap, served, up, il, rc, ub, me⟩ := s
   cases e <;> simp only [step, setPhase] at hs <;> (repeat' split at hs) <;>
     simp only [Option.some.injEq, reduceCtorEq] at hs <;> subst hs <;>
     simp_all [Ev.isI, soloStep, setPhase]
@@ -213,8 +215,8 @@ structure Quiet (s : State) : Prop where
 
 theorem step_quiet {s s' : State} {e : Ev} (h : Inv s) (q : Quiet s) (hs : step s e = some s')
     (ha : e.isAdjust = false) (he : e ≠ .sSerEnd) : Quiet s' := by
-  obtain ⟨ipc, spc, owner, nc, ⟨steps, adj, phase⟩, snap, served, up, il, rc, ub⟩ := s
-  obtain ⟨h1, h2, h3, h4, h5, h6, h7, h8, h9, h10, h11, h12⟩ := h
+  obtain ⟨ipc, spc, owner, nc, ⟨steps, adj, phase⟩, snap, served, up, il, rc, ub, me⟩ := s
+  obtain ⟨h1, h2, h3, h4, h5, h6, h7, h8, h9, h10, h11, h12, h13, h14⟩ := h
   obtain ⟨q1, q2, q3⟩ := q
   cases e <;> simp only [step, setPhase] at hs <;> (repeat' split at hs) <;>
     simp only [Option.some.injEq, reduceCtorEq] at hs <;> subst hs <;>
